@@ -184,6 +184,7 @@ def stepsP : Nat → Mat → String → P String
         | _ => pure "BAD-OP"
       | none => pure "BAD-OP"
     | some x =>
+      if m.crashesX x then pure "CRASH" else
       match m.stepX roundDt x with
       | .ok t (some src) => stepsP n t (acc ++ "| " ++ prefixX m x ++ "S " ++ dump src ++ " " ++ dump t ++ " ")
       | .ok t none => stepsP n t (acc ++ "| " ++ prefixX m x ++ dump t ++ " ")
